@@ -407,14 +407,14 @@ impl Check for C09 {
     fn phases(&self, tier: Tier) -> Vec<Phase> {
         match tier {
             Tier::Quick => vec![
-                Phase::random("event-fields", 2_500, 256).batch(100).watchdog(30_000),
-                Phase::random("read-only", 2_500, 64).batch(100).watchdog(30_000),
-                Phase::random("binding-and-in", 4_000, 2048).batch(100).watchdog(30_000),
+                Phase::random("event-fields", 8_000, 256).batch(100).watchdog(30_000),
+                Phase::random("read-only", 8_000, 64).batch(100).watchdog(30_000),
+                Phase::random("binding-and-in", 12_000, 2048).batch(100).watchdog(30_000),
             ],
             Tier::Thorough => vec![
-                Phase::random("event-fields", 30_000, 256).batch(200).watchdog(30_000),
-                Phase::random("read-only", 30_000, 64).batch(200).watchdog(30_000),
-                Phase::random("binding-and-in", 60_000, 2048).batch(200).watchdog(30_000),
+                Phase::random("event-fields", 100_000, 256).batch(200).watchdog(30_000),
+                Phase::random("read-only", 100_000, 64).batch(200).watchdog(30_000),
+                Phase::random("binding-and-in", 200_000, 2048).batch(200).watchdog(30_000),
             ],
         }
     }
